@@ -608,7 +608,8 @@ class SimulationAlgorithm(BaseSimulationAlgorithm):
         for i, feat in enumerate(self.features):
             if model.parameters["noise_std"].numel() == 1:
                 mu = df_long[feat + "_no_noise"]
-                var = model.parameters["noise_std"].numpy() ** 2
+                # 0-d (fitted) or 1-element (loaded) tensor: use a plain scalar
+                var = model.parameters["noise_std"].item() ** 2
             else:
                 mu = df_long[feat + "_no_noise"]
                 var = model.parameters["noise_std"][i].numpy() ** 2
